@@ -568,11 +568,11 @@ compact_tuple_sketch<S, A> compact_tuple_sketch<S, A>::deserialize(const void* b
     if (preamble_longs == 1) {
       num_entries = 1;
     } else {
-      ensure_minimum_memory(size, 8); // read the first prelong before this method
+      ensure_minimum_memory(size, 16); // the first prelong was read before, the second holds num_entries
       ptr += copy_from_mem(ptr, num_entries);
       ptr += sizeof(uint32_t); // unused
       if (preamble_longs > 2) {
-        ensure_minimum_memory(size, (preamble_longs - 1) << 3);
+        ensure_minimum_memory(size, 24); // theta is the third prelong
         ptr += copy_from_mem(ptr, theta);
       }
     }
